@@ -166,6 +166,15 @@ func main() {
 // properties whose rules rely on write-effect classification at the storage boundary
 var effectProps = map[string]bool{"C01": true, "C02": true, "C04": true, "C06": true, "C07": true, "C09": true, "C11": true, "C14": true, "C15": true, "C17": true}
 
+// error sentinels whose == tests a property's mechanisms rely on
+var sentinelProps = map[string][]string{
+	"C05": {"ErrClockNotExist"},
+	"C07": {"ErrNotFound", "ErrKeyringKeyNotFound"},
+	"C08": {"ErrKeyringKeyNotFound"},
+	"C16": {"ErrNoMatchingOp", "ErrMultipleMatchOp"},
+	"C17": {"ErrNotAuthenticated"},
+}
+
 func runProperty(w *World, id, tier string) (c *Ctx) {
 	pr := registry[id]
 	c = &Ctx{W: w, Prop: id, Tier: tier, Explain: pr.explain, Assume: append([]string{
@@ -179,6 +188,9 @@ func runProperty(w *World, id, tier string) (c *Ctx) {
 	pr.run(c)
 	if effectProps[id] {
 		checkEffectTableComplete(c)
+	}
+	if ss := sentinelProps[id]; len(ss) > 0 {
+		checkSentinelsBare(c, ss...)
 	}
 	return c
 }
